@@ -256,6 +256,8 @@ class Interp:
         return True
 
     def event(self, name, args, node=None):
+        if node is None:
+            node = getattr(self, 'cur_node', None)
         self.path.events.append((name, args, astdb.loc_str(node) if node is not None else '?'))
 
     # ---- function lookup --------------------------------------------------------------
@@ -720,6 +722,7 @@ class Interp:
 
     # ---- expressions ------------------------------------------------------------------
     def eval(self, node):
+        self.cur_node = node
         k = node.get('kind')
         m = getattr(self, 'e_' + k, None)
         if m is None:
